@@ -34,8 +34,7 @@ ThreeZones == {<<Ob("STANDARD", "OLD", p[1] - 60, p[1] - 60, Minutes(1970, 1, 1,
                  y0 \in Y0s, p \in OffPairs}
 \* two observances whose onsets keep one order in local time and the other in UTC (far-apart TZOFFSETFROM)
 CrossZones == {<<Ob("STANDARD", "A", a, 0, Minutes(2001, 6, 1, 600), None),
-                 Ob("DAYLIGHT", "B", b, 60, Minutes(2001, 6, 1, 600 - d), None),
-                 Ob("STANDARD", "C", 60, 0, Minutes(2002, 6, 1, 0), None)>> :
+                 Ob("DAYLIGHT", "B", b, 60, Minutes(2001, 6, 1, 600 - d), None)>> :
                  a \in {840, 600}, b \in {-720, -300}, d \in {30, 240}}
 Init == z \in FixedZones \cup YearlyZones \cup RDateZones \cup ThreeZones \cup (IF Cross THEN CrossZones ELSE {})
 Next == UNCHANGED z
@@ -49,18 +48,18 @@ Answers ==
         T == {o.t : o \in ons}
         first == CHOOSE a \in T : \A b \in T : a <= b
         good == {t \in ProbesOf(T) : t >= first}
+        tr == ImplTransitions(zone)
+        times == ImplTimes(tr)
     IN [t \in good |-> LET act == ActiveIn(ons, t) IN
                          [off |-> {zone[i].to : i \in act}, name |-> {zone[i].name : i \in act}, kind |-> {zone[i].kind : i \in act},
-                          impl |-> ImplAnswer(zone, t)]]
+                          impl |-> ImplAnswerIn(zone, tr, times, t)]]
 \* Ref cross-check: the answer is unique whenever no two observances share an onset instant
 InvUnique == LET a == Answers
                  ons == Onsets(Zone)
              IN (\A x, y \in ons : x.t = y.t => x.i = y.i) => \A t \in DOMAIN a : Cardinality(a[t].off) = 1
 InvNonEmpty == DOMAIN Answers # {}
 \* the pytz-path mirror answers like Ref wherever Ref is unambiguous (refuted on CrossZones: local order # UTC order)
-InvPytzMirror == LET zone == Zone
-                     a == Answers
-                 IN \A t \in DOMAIN a : Cardinality(a[t].off) = 1 =>
-                        LET m == ImplAnswer(zone, t) IN m.off \in a[t].off /\ m.name \in a[t].name
+InvPytzMirror == LET a == Answers
+                 IN \A t \in DOMAIN a : Cardinality(a[t].off) = 1 => (a[t].impl.off \in a[t].off /\ a[t].impl.name \in a[t].name)
 Vec == PrintT(ToJson([z |-> z, probes |-> Answers]))
 =============================================================================
